@@ -95,6 +95,39 @@ pub fn input_sets(universe_len: usize, max_bits: usize, budget: usize) -> (Vec<V
     (out, format!("all subsets with <= {} facts of a universe of {} facts", k, universe_len))
 }
 
+/// input sets up to renaming of the elements: all subsets with <= max_facts facts of the universe, one
+/// representative (the lexicographically least image) per orbit of the element permutations
+pub fn sym_input_sets(uni: &[Fact], sym: &crate::families::Sym) -> (Vec<Vec<usize>>, String) {
+    fn perms(n: usize) -> Vec<Vec<i32>> {
+        if n == 0 { return vec![vec![]]; }
+        let mut out = vec![];
+        for p in perms(n - 1) { for i in 0..n { let mut q = p.clone(); q.insert(i, (n - 1) as i32); out.push(q); } }
+        out
+    }
+    let ps: Vec<Vec<i32>> = perms(sym.n_elem as usize).into_iter().filter(|p| p.iter().enumerate().any(|(i, x)| *x != i as i32)).collect();
+    let image = |s: &[usize], p: &Vec<i32>| -> Vec<Fact> {
+        let mut v: Vec<Fact> = s.iter().map(|i| { let (r, t) = &uni[*i]; let mut t2 = t.clone(); for c in &sym.elem_cols { t2[*c] = p[t2[*c] as usize]; } (*r, t2) }).collect();
+        v.sort();
+        v
+    };
+    let mut out = vec![];
+    let mut total = 0usize;
+    fn rec(n: usize, k: usize, start: usize, cur: &mut Vec<usize>, f: &mut dyn FnMut(&Vec<usize>)) {
+        f(cur);
+        if cur.len() == k { return; }
+        for i in start..n { cur.push(i); rec(n, k, i + 1, cur, f); cur.pop(); }
+    }
+    rec(uni.len(), sym.max_facts, 0, &mut vec![], &mut |s: &Vec<usize>| {
+        total += 1;
+        let mut me: Vec<Fact> = s.iter().map(|i| uni[*i].clone()).collect();
+        me.sort();
+        if ps.iter().all(|p| image(s, p) >= me) { out.push(s.clone()); }
+    });
+    out.sort_by_key(|s| s.len());
+    let n = out.len();
+    (out, format!("all {} subsets with <= {} facts of a universe of {} facts, one representative per renaming of the {} elements ({} sets)", total, sym.max_facts, uni.len(), sym.n_elem, n))
+}
+
 pub fn db_of(u: &Unit, facts: &[Fact]) -> Db {
     let mut db = Db::empty(&u.prog);
     for (r, t) in facts { db.insert(&u.prog, *r, t); }
@@ -188,14 +221,22 @@ fn mode_model(cx: &mut Ctx, prop: &str, only_unit: Option<usize>, only_input: Op
     let budget = (per_shard / nprogs).clamp(if cx.family == "ds" { 3000 } else if many_variants { 300 } else { 4100 }, 300_000);
     let max_bits = (usize::BITS - budget.leading_zeros() - 1) as usize;
     let mut inputs_desc = String::new();
+    let mut sym_cache: std::collections::HashMap<String, (Vec<Vec<usize>>, String)> = Default::default();
     for ui in 0..cx.units.len() {
         let makes = cx.makes(ui);
         if makes.is_empty() { continue; }
         if only_unit.map_or(false, |o| o != ui) { continue; }
         let u = cx.units[ui].clone();
         let uni = universe(&u);
-        let (sets, desc) = input_sets(uni.len(), max_bits, budget);
-        inputs_desc = desc;
+        let (sets, desc) = match &u.sym {
+            None => input_sets(uni.len(), max_bits, budget),
+            Some(sym) => {
+                let key = format!("{:?}|{:?}", uni, sym);
+                if !sym_cache.contains_key(&key) { sym_cache.insert(key.clone(), sym_input_sets(&uni, sym)); }
+                sym_cache[&key].clone()
+            }
+        };
+        if u.sym.is_none() || inputs_desc.is_empty() { inputs_desc = desc; } else if !inputs_desc.contains(" + deep: ") { inputs_desc = format!("{} + deep: {}", inputs_desc, desc); }
         cx.rep.states += 1;
         let mut unit_nontrivial = false;
         let run_input = |facts: &Vec<Fact>, cx: &mut Ctx, unit_nontrivial: &mut bool| {
@@ -545,7 +586,9 @@ fn mode_c14(cx: &mut Ctx, only_unit: Option<usize>, only_case: Option<(Vec<Fact>
                 }
             };
             // one history: run_timeout(t) for each t of `ts` (clock restarted per call), then run()
+            let trace = std::env::var("VERIF_TRACE").is_ok();
             let mut history = |ts: &[u64], cx: &mut Ctx| {
+                if trace { eprintln!("[trace] {} input {:?} deadlines {:?}", u.tag, facts, ts); }
                 cx.rep.states += 1;
                 cx.rep.evaluations += 1;
                 let res = catch(|| {
@@ -581,7 +624,10 @@ fn mode_c14(cx: &mut Ctx, only_unit: Option<usize>, only_case: Option<(Vec<Fact>
                 history(&[t, t], cx);
             }
             if cx.thorough || facts.len() <= 2 {
-                for t1 in 0..=m + 1 { for t2 in 0..=m + 1 { if t1 != t2 { history(&[t1, t2], cx); } } }
+                // all pairs of deadlines; runs with many clock readings: all pairs on the grid of every g-th reading
+                let g = if cx.thorough { (m / 64).max(1) } else if m <= 24 { 1 } else { m / 8 };
+                if g > 1 { cx.rep.extra("double_interruptions", format!("all pairs (t1, t2) of deadlines; runs with more than {} clock readings: all pairs on a grid of every k-th reading, k = readings/{}", if cx.thorough { 64 } else { 24 }, if cx.thorough { 64 } else { 8 })); }
+                for t1 in (0..=m + 1).step_by(g as usize) { for t2 in (0..=m + 1).step_by(g as usize) { if t1 != t2 { history(&[t1, t2], cx); } } }
             }
             cx.rep.add_extra("clock_readings_max", 0);
             let cur = cx.rep.extras.get("clock_readings_max").and_then(|v| v.as_u64()).unwrap_or(0);
